@@ -2194,10 +2194,15 @@ std::vector<VertexHandle> TopologyKernel::get_halfface_vertices(HalfFaceHandle h
 
     // Circulate until we're at the vertex of interest
     auto hfv_it = hfv_iter(hfh, 2);
+    bool found = false;
     for (size_t i = 0; i < n; ++i)
     {
-        if (*hfv_it == vh) {break;}
+        if (*hfv_it == vh) {found = true; break;}
         ++hfv_it;
+    }
+    if (!found) {
+        // the vertex is not on the halfface: no vertex list starts with it
+        return vertices;
     }
 
     // Circulate n times to get all the vertices
